@@ -6,7 +6,7 @@ import sys
 import time
 
 VERIF = os.path.dirname(os.path.dirname(os.path.abspath(__file__)))
-EVID = os.path.join(VERIF, "evidence")
+EVID = os.environ.get("VERIF_EVID") or os.path.join(VERIF, "evidence")   # seed tests write their evidence elsewhere
 REPLAYS = os.path.join(EVID, "replays")
 
 
